@@ -439,8 +439,8 @@ func (w *World) monitorUnexplainedErrors(prop string) {
 			}
 			if !established {
 				// connect attempts may fail for earlier causes (pending retransmission, refusal)
-				if !doomed[cur] && transient == 0 && cur != 0 && len(doomed) == 0 && !expiry && len(stalled) == 0 {
-					w.Violate(prop, "unexplained-readslices-error", "ReadSlices returned %q at step %d while connecting although no fault was chosen at all", e.R, w.log[i].Step)
+				if !doomed[cur] && transient == 0 && cur != 0 && !expiry && !stalled[cur] {
+					w.Violate(prop, "unexplained-readslices-error", "ReadSlices returned %q at step %d while connecting on c%d although nothing went wrong on that connection", e.R, w.log[i].Step, cur)
 					return
 				}
 				transient = 0
